@@ -9,8 +9,12 @@ set -u
 cd "$(dirname "$0")"
 . ./env.sh
 export VERIF_DIR="$(pwd)"
+# The tree under test is /repo. VERIF_REPO overrides it ONLY for background experiments on a snapshot
+# (vp run --with-repo); registered commands never set it.
+REPO="${VERIF_REPO:-/repo}"
+if [ "$REPO" != /repo ]; then ( cd harness && go mod edit -replace "helm.sh/helm/v4=$REPO" ); fi
 mkdir -p bin evidence replays
-cp /repo/go.sum harness/go.sum 2>/dev/null
+cp "$REPO/go.sum" harness/go.sum 2>/dev/null
 prop=""
 case "${1:-}" in
   check) prop="${2:-}";;
@@ -45,7 +49,7 @@ if [ "$variant" = vsched ]; then
   fi
   ov=$(mktemp -d /var/tmp/verif-ov.XXXXXX)
   trap 'rm -rf "$ov"' EXIT
-  if ./bin/rewrite -out "$ov" -shim "$(pwd)/harness/shim" pkg/kube/client.go pkg/kube/wait.go pkg/storage/driver/memory.go >"$ov/rewrite.log" 2>&1; then
+  if ./bin/rewrite -repo "$REPO" -out "$ov" -shim "$(pwd)/harness/shim" pkg/kube/client.go pkg/kube/wait.go pkg/storage/driver/memory.go >"$ov/rewrite.log" 2>&1; then
     ( cd harness && go build -tags vsched -overlay "$ov/overlay.json" -o ../bin/verif-vsched ./cmd/verif ) >bin/build.log 2>&1 || fail_build
     ./bin/verif-vsched "$@"
     exit $?
@@ -61,7 +65,7 @@ if [ "$variant" = maporder ]; then
   fi
   ov=$(mktemp -d /var/tmp/verif-ov.XXXXXX)
   trap 'rm -rf "$ov"' EXIT
-  if ( cd /repo && "$VERIF_DIR/bin/maporder" -out "$ov" -shim "$VERIF_DIR/harness/shim" $MAPORDER_PKGS ) >"$ov/maporder.log" 2>&1; then
+  if ( cd "$REPO" && "$VERIF_DIR/bin/maporder" -repo "$REPO" -out "$ov" -shim "$VERIF_DIR/harness/shim" $MAPORDER_PKGS ) >"$ov/maporder.log" 2>&1; then
     ( cd harness && go build -tags maporder -overlay "$ov/overlay.json" -o ../bin/verif-maporder ./cmd/verif ) >bin/build.log 2>&1 || fail_build
     cp "$ov/sites.json" bin/maporder-sites.json
     VERIF_MAPORDER_SITES="$VERIF_DIR/bin/maporder-sites.json" ./bin/verif-maporder "$@"
